@@ -255,9 +255,6 @@ Section Prog.
   Hypothesis Hnd : NoDup (map fdname (fcpdefs p)).
   Hypothesis Hguard : prog_guard p = true.
 
-  Lemma prog_ncm : calls_main_prog p = false.
-  Proof. unfold prog_guard in Hguard. apply andb_prop in Hguard. destruct Hguard as [H _]. apply negb_true_iff in H. exact H. Qed.
-
   Lemma prog_codata : cpcodata c = codata_of p.
   Proof.
     unfold compile_prog, compile_prog_gen in Hcomp.
@@ -266,10 +263,10 @@ Section Prog.
   Qed.
 
   Lemma prog_defs : exists defs,
-    compile_defs false false (fcpdefs p) (codata_of p) (map fdname (fcpdefs p)) [] [] = Ok defs /\ cpdefs c = defs.
+    compile_defs false (calls_main_prog p) (fcpdefs p) (codata_of p) (map fdname (fcpdefs p)) [] [] = Ok defs /\ cpdefs c = defs.
   Proof.
-    unfold compile_prog, compile_prog_gen in Hcomp. fold (codata_of p) in Hcomp. rewrite prog_ncm in Hcomp.
-    destruct (compile_defs false false (fcpdefs p) (codata_of p) _ [] []) as [defs|?] eqn:E; simpl in Hcomp; [|discriminate].
+    unfold compile_prog, compile_prog_gen in Hcomp. fold (codata_of p) in Hcomp.
+    destruct (compile_defs false (calls_main_prog p) (fcpdefs p) (codata_of p) _ [] []) as [defs|?] eqn:E; simpl in Hcomp; [|discriminate].
     injection Hcomp as Hc. subst c. exists defs. auto.
   Qed.
 
@@ -280,19 +277,28 @@ Section Prog.
   Qed.
 
   Lemma guard_of : forall d, In d (fcpdefs p) -> def_guard p d = true.
+  Proof. intros d Hd. unfold prog_guard in Hguard. rewrite forallb_forall in Hguard. apply Hguard. exact Hd. Qed.
+
+  (* every definition that can be called is compiled by compile_def: all but main, and main too when it is called *)
+  Lemma def_group : forall d, In d (fcpdefs p) -> (fdname d <> "main" \/ calls_main_prog p = true) ->
+    exists ul1 g ul2, compile_def false d (codata_of p) ul1 = Ok (g, ul2) /\ incl g (cpdefs c).
   Proof.
-    intros d Hd. unfold prog_guard in Hguard. apply andb_prop in Hguard. destruct Hguard as [_ Hg].
-    rewrite forallb_forall in Hg. apply Hg. exact Hd.
+    intros d Hin Hm. destruct prog_defs as [defs [Hdefs Hcd]].
+    destruct (compile_defs_groups _ _ _ _ _ _ _ _ Hdefs) as [Hgroups _].
+    destruct (Hgroups d Hin) as [ul1 [g [ul2 [Hc Hincl]]]]. rewrite Hcd.
+    destruct (String.eqb (fdname d) "main") eqn:Em.
+    - apply String.eqb_eq in Em. destruct Hm as [Hm|Hm]; [contradiction|].
+      destruct (compile_main_group_inv _ _ _ _ _ _ _ Hc) as [[Hf _]|[_ [nm [e [ule [m [_ [_ [Hd ->]]]]]]]]].
+      + rewrite Hm in Hf. discriminate Hf.
+      + exists ule, m, ul2. split; [exact Hd|]. intros x Hx. apply Hincl. apply in_or_app. right. exact Hx.
+    - exists ul1, g, ul2. auto.
   Qed.
 
-  Lemma prog_callee : forall f d, ffind_def p f = Some d -> f <> "main" -> callee_ok p c d.
+  Lemma prog_callee : forall f d, ffind_def p f = Some d -> (f <> "main" \/ calls_main_prog p = true) -> callee_ok p c d.
   Proof.
     intros f d Hf Hnm. destruct (find_def_in _ _ _ Hf) as [Hin Hname].
-    destruct prog_defs as [defs [Hdefs Hcd]].
-    destruct (compile_defs_groups _ _ _ _ _ _ _ _ Hdefs) as [Hgroups _].
-    destruct (Hgroups d Hin) as [ul1 [g [ul2 [Hc Hincl]]]].
-    assert (Em : String.eqb (fdname d) "main" = false) by (apply String.eqb_neq; congruence).
-    rewrite Em in Hc. unfold compile_def in Hc.
+    destruct (def_group d Hin) as [ul1 [g [ul2 [Hc Hincl]]]]; [rewrite Hname; exact Hnm|].
+    unfold compile_def in Hc.
     match type of Hc with context [run_def_body ?cd ?dd ?u ?k] =>
       destruct (run_def_body cd dd u k) as [[[a body] st']|?] eqn:Eb end; simpl in Hc; [|discriminate].
     injection Hc as Hg Hul. subst g.
@@ -301,7 +307,7 @@ Section Prog.
     apply mbind_inv in Eb. destruct Eb as [body0 [stb [Hwc Eb]]].
     apply mret_inv in Eb. destruct Eb as [E1 E2]. injection E1 as E1 E3. subst a0 body0 stb.
     destruct (fresh_in_vars_inv _ _ _ _ Ha) as [Hfresh [Hused _]]. simpl in Hfresh, Hused.
-    pose proof (guard_of d Hin) as Hgd. unfold def_guard in Hgd. rewrite Em in Hgd.
+    pose proof (guard_of d Hin) as Hgd. unfold def_guard in Hgd.
     apply andb_prop in Hgd. destruct Hgd as [Hgd Hkeq]. apply andb_prop in Hgd. destruct Hgd as [Hgd Hkd].
     apply andb_prop in Hgd. destruct Hgd as [Hgd _].
     apply andb_prop in Hgd. destruct Hgd as [Hfr Hws]. apply Bool.eqb_prop in Hkeq.
@@ -312,14 +318,63 @@ Section Prog.
     split; [intros x Hx; rewrite Hused; right; apply used_binders_mono; exact Hx|].
     split; [intros x Hx; rewrite Hused; right; apply (bnd_used_binders p); assumption|].
     split.
-    { intros d' Hd'. apply prog_find. rewrite Hcd. apply Hincl. right. exact Hd'. }
+    { intros d' Hd'. apply prog_find. apply Hincl. right. exact Hd'. }
     split.
     { change (new_id (fdname d)) with (cdname (mkcd (new_id (fdname d))
                (compile_ctx (fdctx d) ++ [mkcb (new_id a) CCns (compile_ty (fdret d))]) body)).
-      apply prog_find. rewrite Hcd. apply Hincl. left. reflexivity. }
+      apply prog_find. apply Hincl. left. reflexivity. }
     repeat split; assumption.
   Qed.
 End Prog.
+
+(* ---------- the entry point of a program that calls main (fix <commitmain>):
+   def main<n>(params) { main(params, mu~x. exit x) } ---------- *)
+Lemma nodup_str_nd0 : forall l, nodup_str l = true -> NoDup l.
+Proof.
+  induction l as [|x r IH]; simpl; intros H; constructor.
+  - apply andb_prop in H. destruct H as [H _]. apply negb_true_iff in H. apply mem_false_not_In. exact H.
+  - apply IH. apply andb_prop in H. tauto.
+Qed.
+Definition entry_args (ctx : fctx) : list fterm := map (fun b => FVar (fbvar b) (Some (fbty b)) (Some (fbchi b))) ctx.
+
+Lemma entry_args_compile : forall codata cur ctx st l st',
+  subst_with (fun y => cmp codata cur false y) (entry_args ctx) st = Ok (l, st') ->
+  l = map arg_of_binding (compile_ctx ctx) /\ st' = st.
+Proof.
+  intros codata cur. induction ctx as [|b r IH]; intros st l st' H.
+  - simpl in H. apply mret_inv in H. destruct H; subst. auto.
+  - unfold entry_args in H. cbn [map] in H. fold (entry_args r) in H.
+    apply subst_with_cons_inv in H. destruct H as [a [st1 [rest [Ha [Hr ->]]]]].
+    destruct b as [v chi ty]. cbn [fbvar fbty fbchi] in Ha.
+    apply compile_arg_inv in Ha. destruct Ha as [[v0 [ty1 [ty0 [Ey [Ety [-> ->]]]]]]|[Hn [ty0 [c0 [Ety [Ec ->]]]]]].
+    + injection Ey as E1 E2 E3. subst v0 ty1 chi. injection Ety as <-.
+      destruct (IH _ _ _ Hr) as [-> ->]. split; reflexivity.
+    + destruct chi; [|contradiction]. simpl in Ety. injection Ety as <-.
+      rewrite cmp_unfold in Ec. apply cmp_var_inv in Ec. destruct Ec as [ty1 [E1 [-> ->]]]. injection E1 as <-.
+      destruct (IH _ _ _ Hr) as [-> ->]. split; reflexivity.
+Qed.
+
+Lemma lookups_cons_notin : forall x v ce bs, ~ In x (cvars bs) -> lookups ((x, v) :: ce) bs = lookups ce bs.
+Proof.
+  intros x v ce bs H. unfold lookups. apply map_ext_in. intros bb Hbb. rewrite clookup_cons.
+  assert (E : cident_eqb x (cbvar bb) = false).
+  { apply cid_eqb_neq. intros Ex. apply H. rewrite Ex. unfold cvars. apply in_map. exact Hbb. }
+  rewrite E. reflexivity.
+Qed.
+Lemma cbind_lookups_nodup : forall bs vs ce, NoDup (cvars bs) -> cbind (cvars bs) vs [] = Some ce -> lookups ce bs = vs.
+Proof.
+  induction bs as [|bb r IH]; intros vs ce Hnd H; destruct vs as [|v vr]; simpl in H; try discriminate.
+  - reflexivity.
+  - unfold cvars in *. simpl in *. destruct (cbind (map cbvar r) vr []) as [e0|] eqn:E; [|discriminate].
+    injection H as <-. inversion Hnd as [|? ? Hn Hr]; subst. unfold lookups. cbn [map].
+    rewrite clookup_cons, cid_eqb_refl. f_equal. fold (lookups ((cbvar bb, v) :: e0) r).
+    rewrite lookups_cons_notin; [apply IH; assumption | exact Hn].
+Qed.
+Lemma chi_kind_list_refl : forall l, list_eqb chi_kind_eqb l l = true.
+Proof.
+  induction l as [|[c k] r IH]; simpl; [reflexivity|]. rewrite IH, andb_true_r. unfold chi_kind_eqb. simpl.
+  rewrite Bool.eqb_reflx, andb_true_r. destruct c; reflexivity.
+Qed.
 
 (* ---------- the entry continuation of main: mu~ x. exit x ---------- *)
 Lemma exit_cont_fvt : forall x ty bb, ~ In bb (fvt (CMu CCns (new_id x) (CExit (CXVar CPrd (new_id x) ty) ty) ty)).
@@ -352,67 +407,173 @@ Proof.
   unfold run_fun in Hrun.
   destruct (ffind_def p "main") as [d|] eqn:Ed; [|subst o; contradiction Hfin].
   destruct (find_def_in _ _ _ Ed) as [Hin Hname].
-  destruct (prog_defs p c Hcomp Hguard) as [defs [Hdefs Hcd]].
+  destruct (prog_defs p c Hcomp) as [defs [Hdefs Hcd]].
   destruct (compile_defs_main_head _ _ _ _ _ _ _ _ _ Hdefs Hnd Hin Hname) as [ul1 [g [ul2 [tl [Hm Hres]]]]].
   simpl in Hres. rewrite Hres in Hcd.
-  unfold compile_main_group in Hm. cbn [andb] in Hm. unfold compile_main in Hm.
-  match type of Hm with context [run_def_body ?cd ?dd ?u ?k] =>
-    destruct (run_def_body cd dd u k) as [[body st']|?] eqn:Eb end; simpl in Hm; [|discriminate].
-  injection Hm as Hg Hul. subst g.
-  unfold run_def_body in Eb. destruct (fterm_type (fdbody d)) as [bty|] eqn:Ebty; [|discriminate].
-  apply mbind_inv in Eb. destruct Eb as [x0 [stx [Hx Hwc]]].
-  destruct (fresh_in_vars_inv _ _ _ _ Hx) as [Hfresh [Hused _]]. simpl in Hfresh, Hused.
+  (* what the guard says about main *)
   pose proof (guard_of p Hguard d Hin) as Hgd. unfold def_guard in Hgd.
   assert (Em : String.eqb (fdname d) "main" = true) by (apply String.eqb_eq; exact Hname).
-  rewrite Em, Ebty in Hgd.
+  rewrite Em in Hgd.
   apply andb_prop in Hgd. destruct Hgd as [Hgd Hkeq]. apply andb_prop in Hgd. destruct Hgd as [Hgd Hkd].
-  apply andb_prop in Hgd. destruct Hgd as [Hgd Hdt]. apply andb_prop in Hdt. destruct Hdt as [Hdt Hctxd].
+  apply andb_prop in Hgd. destruct Hgd as [Hgd Hdt]. apply andb_prop in Hdt. destruct Hdt as [Hdt Hndp].
+  apply andb_prop in Hdt. destruct Hdt as [Hdt Hctxd].
   apply andb_prop in Hgd. destruct Hgd as [Hfr Hws].
-  assert (Hkmain : tkind p (fdbody d) = false).
-  { unfold tkind. rewrite Ebty. simpl. unfold data_ty in Hdt. apply negb_true_iff in Hdt. exact Hdt. }
-  unfold run_core. rewrite Hcd. simpl.
-  unfold fentry_env in Hrun. unfold centry_env. simpl. rewrite entry_chi.
-  destruct (forallb (fun b => match fbchi b with FPrd => true | FCns => false end) (fdctx d)) eqn:Eprd;
-    [|exists 0%nat; exact Hrun].
-  destruct (fbind (fvars (fdctx d)) (map (fun z => FbP (FvInt z)) args) []) as [e1|] eqn:Ebind;
-    [|subst o; contradiction Hfin].
-  rewrite forallb_prd_eq in Eprd.
-  assert (Hdf : Forall dfield (map (fun z => FbP (FvInt z)) args)).
-  { apply Forall_forall. intros b Hb. apply in_map_iff in Hb. destruct Hb as [z [E _]]. subst b. exact I. }
-  destruct (kinds_of_fields p c Hcod (fdctx d) _ _ _ Hdf Hctxd Ebind) as [Hk1 Hk2].
-  set (cont := CMu CCns (new_id x0) (CExit (CXVar CPrd (new_id x0) (compile_ty bty)) (compile_ty bty)) (compile_ty bty)) in *.
-  destruct (erel_binds p c n [] (fdctx d) (Sof (fvs body)) (fun _ => True)
-              (map (fun z => FbP (FvInt z)) args) (map (fun z => BP (PInt z)) args) [] [] e1) as [ce1 [Hcb [Hr _]]].
-  - clear. induction args as [|z r IH]; simpl; constructor; [reflexivity | exact IH].
-  - exact Hk2.
-  - exact Hk1.
-  - exact Ebind.
-  - intros bb Hgl. simpl in Hgl. discriminate.
-  - intros x _ _. exact I.
-  - rewrite Hcb. rewrite app_nil_r in Hr.
-    assert (Hsim : sim p c n (FEval (fdbody d) e1 FkHalt) (SNext (Run body ce1))).
-    { apply (proj1 (fl_all p c Hcod Hcallee n (fdbody d)) n (Nat.le_refl n) (compile_ctx (fdctx d)) (fdname d) cont stx body st'
-               e1 ce1 FkHalt Hwc Hfr Hkd Hws).
-      - intros d' Hd'. apply (prog_find p c Hcomp Hnd). rewrite Hcd. apply in_or_app. left. right. exact Hd'.
-      - intros bb Hb. unfold compile_ctx in Hb. apply in_map_iff in Hb. destruct Hb as [b0 [E Hb0]]. subst bb.
-        exists (fbvar b0). split; [reflexivity|]. rewrite Hused. right. apply used_binders_mono. unfold fvars. apply in_map. exact Hb0.
-      - intros y Hy. rewrite Hused. right. apply (bnd_used_binders p); assumption.
-      - intros y Hy. apply in_cnames_inv in Hy. destruct Hy as [bb [Hb _]]. exfalso. exact (exit_cont_fvt _ _ _ Hb).
-      - rewrite Hkmain. unfold cont. simpl. split; [reflexivity|]. split; [reflexivity|]. split.
-        + rewrite (is_codata_compile p c Hcod). unfold data_ty in Hdt. apply negb_true_iff in Hdt. exact Hdt.
+  destruct (compile_main_group_inv _ _ _ _ _ _ _ Hm) as [[Hcalled Hm']|[Hcalled [nm [e [ule [mg [Hfn [He [Hmd Eg]]]]]]]]].
+  { (* main is not called: main itself is the entry point, its continuation is mu~x. exit x *)
+    clear Hm. rename Hm' into Hm. unfold compile_main in Hm.
+    match type of Hm with context [run_def_body ?cd ?dd ?u ?k] =>
+      destruct (run_def_body cd dd u k) as [[body st']|?] eqn:Eb end; simpl in Hm; [|discriminate].
+    injection Hm as Hg Hul. subst g.
+    unfold run_def_body in Eb. destruct (fterm_type (fdbody d)) as [bty|] eqn:Ebty; [|discriminate].
+    apply mbind_inv in Eb. destruct Eb as [x0 [stx [Hx Hwc]]].
+    destruct (fresh_in_vars_inv _ _ _ _ Hx) as [Hfresh [Hused _]]. simpl in Hfresh, Hused.
+    assert (Hkmain : tkind p (fdbody d) = false).
+    { unfold tkind. rewrite Ebty. simpl. unfold data_ty in Hdt. apply negb_true_iff in Hdt. exact Hdt. }
+    unfold run_core. rewrite Hcd. simpl.
+    unfold fentry_env in Hrun. unfold centry_env. simpl. rewrite entry_chi.
+    destruct (forallb (fun b => match fbchi b with FPrd => true | FCns => false end) (fdctx d)) eqn:Eprd;
+      [|exists 0%nat; exact Hrun].
+    destruct (fbind (fvars (fdctx d)) (map (fun z => FbP (FvInt z)) args) []) as [e1|] eqn:Ebind;
+      [|subst o; contradiction Hfin].
+    rewrite forallb_prd_eq in Eprd.
+    assert (Hdf : Forall dfield (map (fun z => FbP (FvInt z)) args)).
+    { apply Forall_forall. intros b Hb. apply in_map_iff in Hb. destruct Hb as [z [E _]]. subst b. exact I. }
+    destruct (kinds_of_fields p c Hcod (fdctx d) _ _ _ Hdf Hctxd Ebind) as [Hk1 Hk2].
+    set (cont := CMu CCns (new_id x0) (CExit (CXVar CPrd (new_id x0) (compile_ty bty)) (compile_ty bty)) (compile_ty bty)) in *.
+    destruct (erel_binds p c n [] (fdctx d) (Sof (fvs body)) (fun _ => True)
+                (map (fun z => FbP (FvInt z)) args) (map (fun z => BP (PInt z)) args) [] [] e1) as [ce1 [Hcb [Hr _]]].
+    - clear. induction args as [|z r IH]; simpl; constructor; [reflexivity | exact IH].
+    - exact Hk2.
+    - exact Hk1.
+    - exact Ebind.
+    - intros bb Hgl. simpl in Hgl. discriminate.
+    - intros x _ _. exact I.
+    - rewrite Hcb. rewrite app_nil_r in Hr.
+      assert (Hsim : sim p c n (FEval (fdbody d) e1 FkHalt) (SNext (Run body ce1))).
+      { apply (proj1 (fl_all p c Hcod Hcallee n (fdbody d)) n (Nat.le_refl n) (compile_ctx (fdctx d)) (fdname d) cont stx body st'
+                 e1 ce1 FkHalt Hwc Hfr Hkd Hws).
+        - intros d' Hd'. apply (prog_find p c Hcomp Hnd). rewrite Hcd. apply in_or_app. left. right. exact Hd'.
+        - intros bb Hb. unfold compile_ctx in Hb. apply in_map_iff in Hb. destruct Hb as [b0 [E Hb0]]. subst bb.
+          exists (fbvar b0). split; [reflexivity|]. rewrite Hused. right. apply used_binders_mono. unfold fvars. apply in_map. exact Hb0.
+        - intros y Hy. rewrite Hused. right. apply (bnd_used_binders p); assumption.
+        - intros y Hy. apply in_cnames_inv in Hy. destruct Hy as [bb [Hb _]]. exfalso. exact (exit_cont_fvt _ _ _ Hb).
+        - rewrite Hkmain. unfold cont. simpl. split; [reflexivity|]. split; [reflexivity|]. split.
+          + rewrite (is_codata_compile p c Hcod). unfold data_ty in Hdt. apply negb_true_iff in Hdt. exact Hdt.
+          + intros Hy. apply in_cnames_inv in Hy. destruct Hy as [bb [Hb _]]. exact (exit_cont_fvt _ _ _ Hb).
+        - exact Hr.
+        - rewrite Hkmain. split.
+          + intros bb Hb _. exfalso. exact (exit_cont_fvt _ _ _ Hb).
+          + intros _. unfold cont. simpl. intros j Hj v pv Hd Hv env Ha.
+            destruct j as [|j1]; [apply sim_zero|].
+            destruct v as [z|tag fields|cls0 e0|t0 e0]; try contradiction;
+              [|eapply sim_stuck; reflexivity].
+            apply vrel_int in Hv. subst pv.
+            apply sim_cstep. simpl. apply sim_cstep. simpl.
+            rewrite (Ha (new_id x0)); [|simpl; left; reflexivity].
+            rewrite clookup_cons, cid_eqb_refl. apply sim_cstep. simpl.
+            assert (Hs : fstep p (FRet FkHalt (FvInt z)) = FHalt (OExit z)) by reflexivity.
+            exact (sim_halt p c j1 _ _ Hs). }
+      destruct (Hsim [] o Hrun Hfin) as [m Hm]. exists m. exact Hm.
+  }
+  (* main is called: the entry point calls main with the exit continuation *)
+    simpl in Hcalled. rewrite andb_true_r in Hcalled. subst g.
+    rewrite Hcalled in Hndp. simpl in Hndp.
+    unfold compile_main in He.
+    match type of He with context [run_def_body ?cd ?dd ?u ?k] =>
+      destruct (run_def_body cd dd u k) as [[body st']|?] eqn:Eb end; simpl in He; [|discriminate].
+    injection He as Hg Hul. subst e.
+    unfold run_def_body in Eb. cbn [entry_fdef fdbody fterm_type fdctx fdname] in Eb.
+    apply mbind_inv in Eb. destruct Eb as [x0 [stx [Hx Hwc]]].
+    rewrite wc_unfold in Hwc. apply wc_call_inv in Hwc. destruct Hwc as [args' [ret0 [Hargs [Eret Es]]]].
+    injection Eret as <-. subst body. fold (entry_args (fdctx d)) in Hargs.
+    destruct (entry_args_compile _ _ _ _ _ _ Hargs) as [-> ->].
+    assert (Hdt' : f_is_codata p (fdret d) = false).
+    { apply Bool.eqb_prop in Hkeq. rewrite <- Hkeq. unfold tkind. unfold data_ty in Hdt.
+      destruct (fterm_type (fdbody d)) as [bty|]; [|reflexivity]. simpl. apply negb_true_iff in Hdt. exact Hdt. }
+    set (cont := CMu CCns (new_id x0) (CExit (CXVar CPrd (new_id x0) (compile_ty (fdret d))) (compile_ty (fdret d))) (compile_ty (fdret d))) in *.
+    unfold run_core. rewrite Hcd. simpl.
+    unfold fentry_env in Hrun. unfold centry_env. simpl. rewrite entry_chi.
+    destruct (forallb (fun b => match fbchi b with FPrd => true | FCns => false end) (fdctx d)) eqn:Eprd;
+      [|exists 0%nat; exact Hrun].
+    destruct (fbind (fvars (fdctx d)) (map (fun z => FbP (FvInt z)) args) []) as [e1|] eqn:Ebind;
+      [|subst o; contradiction Hfin].
+    assert (Hdf : Forall dfield (map (fun z => FbP (FvInt z)) args)).
+    { apply Forall_forall. intros b Hb. apply in_map_iff in Hb. destruct Hb as [z [E _]]. subst b. exact I. }
+    destruct (kinds_of_fields p c Hcod (fdctx d) _ _ _ Hdf Hctxd Ebind) as [Hk1 Hk2].
+    assert (Hrel : Forall2 (brel p c (S n)) (map (fun z => FbP (FvInt z)) args) (map (fun z => BP (PInt z)) args)).
+    { clear. induction args as [|z r IH]; simpl; constructor; [reflexivity | exact IH]. }
+    destruct (erel_binds p c n [] (fdctx d) (fun _ => True) (fun _ => True)
+                (map (fun z => FbP (FvInt z)) args) (map (fun z => BP (PInt z)) args) [] [] e1) as [ce1 [Hcb _]].
+    { eapply brels_mono; [exact Hrel | lia]. }
+    { exact Hk2. }
+    { exact Hk1. }
+    { exact Ebind. }
+    { intros bb Hgl. simpl in Hgl. discriminate. }
+    { intros x _ _. exact I. }
+    rewrite Hcb.
+    (* the parameters, looked up by name, are the entry values *)
+    assert (Hndc : NoDup (cvars (compile_ctx (fdctx d)))).
+    { unfold cvars, compile_ctx. rewrite map_map. change (fun x => cbvar (compile_binding x)) with (fun x => new_id (fbvar x)).
+      rewrite <- (map_map fbvar new_id). apply FinFun.Injective_map_NoDup; [intros a b; apply new_id_inj|].
+      apply nodup_str_nd0. exact Hndp. }
+    pose proof (cbind_lookups_nodup _ _ _ Hndc Hcb) as Hlk.
+    assert (Hvs : Forall (fun v => ckind v = CPrd) (map (fun z => BP (PInt z)) args)).
+    { apply Forall_forall. intros v Hv. apply in_map_iff in Hv. destruct Hv as [z [<- _]]. reflexivity. }
+    assert (Hprd : forall b0, In b0 (fdctx d) -> fbchi b0 = FPrd /\ f_is_codata p (fbty b0) = false).
+    { intros b0 Hb0. unfold ctx_data in Hctxd. rewrite forallb_forall in Hctxd. specialize (Hctxd b0 Hb0).
+      apply andb_prop in Hctxd. destruct Hctxd as [Hc1 Hc2]. apply negb_true_iff in Hc2.
+      split; [destruct (fbchi b0); [reflexivity | discriminate] | exact Hc2]. }
+    assert (Hkinds : forall bb, In bb (compile_ctx (fdctx d)) ->
+              exists b', clookup ce1 (cbvar bb) = Some b' /\ ckind b' = cbchi bb).
+    { intros bb Hbb.
+      assert (Hall : forall (bs : list cbinding) vs ce, Forall (fun v => ckind v = CPrd) vs ->
+                cbind (cvars bs) vs [] = Some ce ->
+                forall bb, In bb bs -> exists b', clookup ce (cbvar bb) = Some b' /\ ckind b' = CPrd).
+      { clear. induction bs as [|b0 r IH]; intros vs ce Hv Hcb bb Hbb; [contradiction|].
+        destruct vs as [|v vr]; simpl in Hcb; [discriminate|]. unfold cvars in *. simpl in Hcb.
+        destruct (cbind (map cbvar r) vr []) as [e0|] eqn:E; [|discriminate]. injection Hcb as <-.
+        inversion Hv as [|? ? Hv1 Hv2]; subst. rewrite clookup_cons.
+        destruct (cident_eqb (cbvar b0) (cbvar bb)) eqn:Eq; [exists v; auto|].
+        destruct Hbb as [Hbb|Hbb]; [subst bb; rewrite cid_eqb_refl in Eq; discriminate|].
+        exact (IH vr e0 Hv2 E bb Hbb). }
+      destruct (Hall _ _ _ Hvs Hcb bb Hbb) as [b' [E1 E2]]. exists b'. split; [exact E1|]. rewrite E2.
+      unfold compile_ctx in Hbb. apply in_map_iff in Hbb. destruct Hbb as [b0 [<- Hb0]]. simpl.
+      rewrite (proj1 (Hprd b0 Hb0)). reflexivity. }
+    assert (Hsim : sim p c n (FEval (fdbody d) e1 FkHalt)
+              (SNext (Run (CCall (new_id "main") (map arg_of_binding (compile_ctx (fdctx d)) ++ [CConsumer cont]) (compile_ty (fdret d))) ce1))).
+    { apply (sim_fstep_inv p c n (FArgs (rev_append (map (fun z => FbP (FvInt z)) args) []) [] e1 (AfCall "main") FkHalt)).
+      { simpl. rewrite rev_append_nil_twice, Ed, Ebind. reflexivity. }
+      apply sim_cstep. simpl. rewrite start_args_eq.
+      eapply sim_rreach; [|apply (bind_args_run_tail c (compile_ctx (fdctx d)) ce1 _ [] [CConsumer cont] Hkinds)].
+      rewrite Hlk.
+      apply (call_finish p c Hcod Hcallee (S n) (fun N' _ t => proj1 (fl_all p c Hcod Hcallee N' t)) (S n) (le_n _)
+               "main" (entry_args (fdctx d)) (Some (fdret d)) e1 ce1 FkHalt cont
+               (map (fun z => FbP (FvInt z)) args) (map (fun z => BP (PInt z)) args)).
+      - right. exact Hcalled.
+      - unfold call_kinds. rewrite Ed.
+        assert (Emap : map (fun y => (arg_chi y, tkind p y)) (entry_args (fdctx d)) =
+                       map (fun b => (fbchi b, f_is_codata p (fbty b))) (fdctx d)).
+        { unfold entry_args. rewrite map_map. apply map_ext. intros b. unfold tkind. simpl. destruct (fbchi b); reflexivity. }
+        rewrite Emap, chi_kind_list_refl. simpl. apply Bool.eqb_reflx.
+      - exact Hrel.
+      - unfold entry_args. clear -Hk2 Hdf Hprd.
+        revert Hdf Hprd. induction Hk2 as [|v b0 vr br Hv Hr IH]; intros Hdf Hprd; [constructor|].
+        inversion Hdf as [|? ? Hd1 Hd2]; subst. cbn [map]. constructor.
+        + destruct (Hprd b0 (or_introl eq_refl)) as [Hc1 Hc2]. rewrite Hc1. split; [|destruct v; [reflexivity | contradiction]].
+          unfold okb, tkind. simpl. rewrite Hc2. destruct v as [v0|k0]; [exact Hd1 | contradiction].
+        + apply IH; [exact Hd2 | intros b1 Hb1; apply Hprd; right; exact Hb1].
+      - change (f_is_codata_o p (Some (fdret d))) with (f_is_codata p (fdret d)). rewrite Hdt'. unfold cont. simpl. split; [reflexivity|]. split; [reflexivity|]. split.
+        + rewrite (is_codata_compile p c Hcod). exact Hdt'.
         + intros Hy. apply in_cnames_inv in Hy. destruct Hy as [bb [Hb _]]. exact (exit_cont_fvt _ _ _ Hb).
-      - exact Hr.
-      - rewrite Hkmain. split.
-        + intros bb Hb _. exfalso. exact (exit_cont_fvt _ _ _ Hb).
-        + intros _. unfold cont. simpl. intros j Hj v pv Hd Hv env Ha.
-          destruct j as [|j1]; [apply sim_zero|].
-          destruct v as [z|tag fields|cls0 e0|t0 e0]; try contradiction;
-            [|eapply sim_stuck; reflexivity].
-          apply vrel_int in Hv. subst pv.
-          apply sim_cstep. simpl. apply sim_cstep. simpl.
-          rewrite (Ha (new_id x0)); [|simpl; left; reflexivity].
-          rewrite clookup_cons, cid_eqb_refl. apply sim_cstep. simpl.
-          assert (Hs : fstep p (FRet FkHalt (FvInt z)) = FHalt (OExit z)) by reflexivity.
-          exact (sim_halt p c j1 _ _ Hs). }
-    destruct (Hsim [] o Hrun Hfin) as [m Hm]. exists m. exact Hm.
+      - change (f_is_codata_o p (Some (fdret d))) with (f_is_codata p (fdret d)). rewrite Hdt'. unfold cont. simpl. intros j Hj v pv Hd Hv env Ha.
+        destruct j as [|j1]; [apply sim_zero|].
+        destruct v as [z|tag fields|cls0 e0|t0 e0]; try contradiction;
+          [|eapply sim_stuck; reflexivity].
+        apply vrel_int in Hv. subst pv.
+        apply sim_cstep. simpl. apply sim_cstep. simpl.
+        rewrite (Ha (new_id x0)); [|simpl; left; reflexivity].
+        rewrite clookup_cons, cid_eqb_refl. apply sim_cstep. simpl.
+        assert (Hs : fstep p (FRet FkHalt (FvInt z)) = FHalt (OExit z)) by reflexivity.
+        exact (sim_halt p c j1 _ _ Hs). }
+    destruct (Hsim [] o Hrun Hfin) as [m Hm0]. exists m. rewrite Hname. exact Hm0.
 Qed.
